@@ -25,6 +25,9 @@ def main():
     import gen_geo
     r6 = gen_geo.generate(os.path.join(GEN, 'Geo.lean'))
     print('generated:', {'Geo': r6['unsupported']})
+    import gen_nitf_orient
+    r7 = gen_nitf_orient.generate(os.path.join(GEN, 'NitfOrient.lean'))
+    print('generated:', {'NitfOrient': r7['unsupported'], 'rows': r7['rows']})
     for extra in ('tables_xml',):
         try:
             mod = __import__(extra)
